@@ -15,11 +15,14 @@ E57/Model/Pages.lean (`validateCrc`) and compared with the real binaries by the 
  * colours: `parseUnsigned_255_roundtrip`, `colourToU8_parses_back`; with `E57/Proofs/SoftFloat.lean`:
    `SF.colour_roundTrip` (every 8-bit colour survives normalise → as f32 → ·255 → as u8, decided in the kernel for
    the soft-float model that suite `sfloat` ties to the hardware).
- * e57-to-xyz: `toXyzPoint_eq`; under `IEEEFacts` (12 facts about the native `Float`, opaque to the kernel:
-   1·v = v, v+0 = v except −0, f32→f64→f32 identity, …) `IEEEFacts.coords`, `toXyzPoint_roundtrip`,
-   `xyzRoundTrip_spec`: finite coordinates come back numerically unchanged and in order;
-   `xyz_coords_bits_statement_false`: −0.0 comes back as +0.0 (the identity pose is applied as 1·x+0·y+0·z+0),
-   numerically equal; `xyz_coords_bits_partial` for all other finite values.
+ * e57-to-xyz (the tool's point cloud has no pose, and the simple iterator applies a pose only if there is one):
+   `toXyzPoint_eq` (each printed coordinate is the stored `f32` widened and narrowed, no arithmetic); under
+   `IEEEFacts` (TWO facts about the native `Float`, opaque to the kernel: f64 → bits → f64 and f32→f64→f32 are the
+   identity on every non-NaN pattern) `IEEEFacts.coords`, `xyz_coords_bits`, `toXyzPoint_roundtrip`,
+   `xyzRoundTrip_spec`: every coordinate that is not a NaN (−0.0, ±∞ included) comes back BIT-identical and in order;
+   `xyz_coords_bits_partial` (corollary, kept); `xyz_coords_nan` (under `NaNFacts`: NaN comes back as a NaN).
+   Before the repair: `identity_pose_not_neutral` (under the former twelve facts, `IdentityPoseFacts`: the identity
+   pose `1·x+0·y+0·z+0` turns −0.0 into +0.0; this was `xyz_coords_bits_statement_false`).
 -/
 import E57.Model.Tools
 import E57.Proofs.SoftFloat
